@@ -11,15 +11,17 @@
    The first disagreement of a history is reported and the rest of that history is skipped. *)
 EXTENDS MuxPool, VTrace
 
-VARIABLE bad
-tvars == <<vars, l, bad>>
+VARIABLES bad,
+          ms    \* the pool records the observations so far are consistent with (the index a request used and
+                \* what Close() did to draining connections are not always visible at once)
+tvars == <<vars, l, bad, ms>>
 
 S(seq) == {seq[i] : i \in DOMAIN seq}
 Last0 == [op |-> "init", res |-> "ok", s |-> 0, c |-> 0, pre |-> M0]
-TraceInit == l = 1 /\ bad = FALSE /\ maxReq = 0 /\ m = M0 /\ last = Last0 /\ hist = <<>>
+TraceInit == l = 1 /\ bad = FALSE /\ maxReq = 0 /\ m = M0 /\ ms = {M0} /\ last = Last0 /\ hist = <<>>
 
 TPool == /\ IsEvent("pool")
-         /\ maxReq' = Ev.mr /\ m' = M0 /\ last' = Last0 /\ bad' = FALSE
+         /\ maxReq' = Ev.mr /\ m' = M0 /\ ms' = {M0} /\ last' = Last0 /\ bad' = FALSE
          /\ UNCHANGED hist
 
 Mis(kind) == PrintT(<<"MISMATCH", l, kind>>)
@@ -55,8 +57,8 @@ ResultKind(R) ==
   ELSE IF Ev.res = "overflow" THEN "refused-with-capacity"
   ELSE IF Ev.res = "ok" /\ (\A r \in R : r.res = "overflow") THEN "admitted-over-limit"
   ELSE IF Ev.res = "ok" /\ (\A r \in R : r.res = "connfail") THEN "admitted-without-connection"
-  ELSE IF Ev.res = "ok" /\ Ev.c \in Conns /\ Ev.c \in m.ga THEN "stream-on-going-away-connection"
-  ELSE IF Ev.res = "ok" /\ Ev.c \in Conns /\ m.cst[Ev.c] = "closed" THEN "stream-on-closed-connection"
+  ELSE IF Ev.res = "ok" /\ Ev.c \in Conns /\ (\A q \in ms : Ev.c \in q.ga) THEN "stream-on-going-away-connection"
+  ELSE IF Ev.res = "ok" /\ Ev.c \in Conns /\ (\A q \in ms : q.cst[Ev.c] = "closed") THEN "stream-on-closed-connection"
   ELSE IF Ev.res = "ok" THEN "stream-on-unexpected-connection"
   ELSE "result-expected-" \o (CHOOSE x \in {r.res : r \in R} : TRUE)
 OpenKind(R1) == LET exp == Open((CHOOSE r \in R1 : TRUE).m) IN
@@ -64,10 +66,10 @@ OpenKind(R1) == LET exp == Open((CHOOSE r \in R1 : TRUE).m) IN
 
 TOp ==
   /\ IsEvent("op")
-  /\ IF bad THEN UNCHANGED <<vars, bad>>
+  /\ IF bad THEN UNCHANGED <<vars, bad, ms>>
      ELSE IF Ev.res \notin {"ok", "overflow", "connfail"}
-          THEN Mis(Tag) /\ bad' = TRUE /\ UNCHANGED vars
-     ELSE LET R  == Step(m, EvOp, maxReq)
+          THEN Mis(Tag) /\ bad' = TRUE /\ UNCHANGED <<vars, ms>>
+     ELSE LET R  == UNION {Step(q, EvOp, maxReq) : q \in ms}
               R1 == {r \in R : MResult(r)}
               R2 == {r \in R1 : MOpen(r)}
               R3 == {r \in R2 : MLive(r)}
@@ -82,13 +84,15 @@ TOp ==
                       ELSE IF R5 = {} THEN "gauge-connection-active"
                       ELSE "books-clients"
           IN IF R6 # {}
-             THEN /\ \E r \in R6 : /\ m' = r.m
-                                   /\ last' = [op |-> Ev.op, res |-> r.res, s |-> r.s, c |-> r.c, pre |-> m]
-                                   /\ Expect(MuxOK(r.m, maxReq), "spec-invariant")
+             THEN /\ ms' = {r.m : r \in R6}
+                  /\ LET r == CHOOSE x \in R6 : TRUE IN
+                        /\ m' = r.m
+                        /\ last' = [op |-> Ev.op, res |-> r.res, s |-> r.s, c |-> r.c, pre |-> m]
+                  /\ Expect(\A r \in R6 : MuxOK(r.m, maxReq), "spec-invariant")
                   /\ Expect((Ev.op = "new" /\ Ev.res = "ok") => Ev.cvar = Ev.c, "new/ok:stream-identity")
                   /\ bad' = FALSE
                   /\ UNCHANGED <<maxReq, hist>>
-             ELSE Mis(Tag \o ":" \o kind) /\ bad' = TRUE /\ UNCHANGED vars
+             ELSE Mis(Tag \o ":" \o kind) /\ bad' = TRUE /\ UNCHANGED <<vars, ms>>
 
 TraceNext == TPool \/ TOp
 TraceSpec == TraceInit /\ [][TraceNext]_tvars
